@@ -33,6 +33,8 @@ MUTANTS = [
     ("m04a", "C04", "region/client.go", "\t\t\"org.apache.hadoop.hbase.exceptions.RegionOpeningException\": \"\",\n", "", "RegionOpeningException no longer retryable"),
     ("m04b", "C04", "rpc.go", "\t\tif reg.MarkUnavailable() {\n\t\t\tgo c.reestablishRegion(reg)\n\t\t}\n\tcase region.ServerError:",
      "\tcase region.ServerError:", "NotServingRegionError no longer marks the region unavailable"),
+    ("m04c", "C04", "rpc.go", "\t\tif reg == c.adminRegionInfo {\n\t\t\t// If this is the admin client, mark the region\n\t\t\t// as unavailable and start up a goroutine to\n\t\t\t// reconnect if it wasn't already marked as such.\n\t\t\tif reg.MarkUnavailable() {\n\t\t\t\tgo c.reestablishRegion(reg)\n\t\t\t}\n\t\t} else {",
+     "\t\tif reg == c.adminRegionInfo {\n\t\t} else {", "admin client: a dead master connection is not re-established"),
     ("m05a", "C05", "region/client.go", ("\tc.writeM.Lock()\n", "\tc.writeM.Unlock()\n"), ("", ""), "write lock removed"),
     ("m06a", "C06", "scanner.go", "\ttmp[len(tmp)-1] = tmp[len(tmp)-1] - 1\n", "\ttmp[len(tmp)-1] = tmp[len(tmp)-1] - 2\n", "reversed scan: predecessor key off by one more"),
     ("m06b", "C06", "scanner.go", "\t\tif rsk[len(rsk)-1] == 0x0 {\n\t\t\ts.startRow = rsk[:len(rsk)-1]\n\t\t\treturn\n\t\t}\n", "", "reversed scan: zero-suffix shortening dropped"),
